@@ -15,35 +15,12 @@
    for each other party in ascending ID order, pairwise contribution then witness. *)
 From Coq Require Import List NArith Bool.
 Import ListNotations.
-Require Import V.base.Bytes V.gen.Hagrid V.model.Transcript.
+Require Import V.base.Bytes V.gen.Hagrid V.gen.SessionConsts V.model.Transcript.
 Local Open Scope N_scope.
 
-(* ---------- constants of participant.go / context.go ---------- *)
-
-(* "BRON_CRYPTO_SESSION-SESSION" *)
-Definition sessionDomainSeparator : bytes :=
-  [66; 82; 79; 78; 95; 67; 82; 89; 80; 84; 79; 95; 83; 69; 83; 83; 73; 79; 78; 45; 83; 69; 83; 83; 73; 79; 78]%N.
-(* "BRON_CRYPTO_SESSION-SEED" *)
-Definition seedDomainSeparator : bytes :=
-  [66; 82; 79; 78; 95; 67; 82; 89; 80; 84; 79; 95; 83; 69; 83; 83; 73; 79; 78; 45; 83; 69; 69; 68]%N.
-(* "BRON_CRYPTO_NOTHING_UP_MY_SLEEVE" *)
-Definition commonCommitmentKey : bytes :=
-  [66; 82; 79; 78; 95; 67; 82; 89; 80; 84; 79; 95; 78; 79; 84; 72; 73; 78; 71; 95; 85; 80; 95; 77; 89; 95; 83; 76; 69; 69; 86; 69]%N.
-(* "BRON_CRYPTO_SETUP_TRANSCRIPT-" *)
-Definition transcriptName : bytes :=
-  [66; 82; 79; 78; 95; 67; 82; 89; 80; 84; 79; 95; 83; 69; 84; 85; 80; 95; 84; 82; 65; 78; 83; 67; 82; 73; 80; 84; 45]%N.
-(* "BRON_CRYPTO_SETUP_TRANSCRIPT_INIT-" *)
-Definition transcriptInitLabel : bytes :=
-  [66; 82; 79; 78; 95; 67; 82; 89; 80; 84; 79; 95; 83; 69; 84; 85; 80; 95; 84; 82; 65; 78; 83; 67; 82; 73; 80; 84; 95; 73; 78; 73; 84; 45]%N.
-(* "BRON_CRYPTO_SETUP_SEED_DOMAIN_SEPARATOR-" *)
-Definition seedDomainSeparatorLabel : bytes :=
-  [66; 82; 79; 78; 95; 67; 82; 89; 80; 84; 79; 95; 83; 69; 84; 85; 80; 95; 83; 69; 69; 68; 95; 68; 79; 77; 65; 73; 78; 95; 83; 69; 80; 65; 82; 65; 84; 79; 82; 45]%N.
-(* "BRON_CRYPTO_SETUP_SUBQUORUM-" *)
-Definition subQuorumLabel : bytes :=
-  [66; 82; 79; 78; 95; 67; 82; 89; 80; 84; 79; 95; 83; 69; 84; 85; 80; 95; 83; 85; 66; 81; 85; 79; 82; 85; 77; 45]%N.
-(* "BRON_CRYPTO_SETUP_SUBCONTEXT-" *)
-Definition subContextDomainSeparatorLabel : bytes :=
-  [66; 82; 79; 78; 95; 67; 82; 89; 80; 84; 79; 95; 83; 69; 84; 85; 80; 95; 83; 85; 66; 67; 79; 78; 84; 69; 88; 84; 45]%N.
+(* The constants of participant.go / context.go that enter hashes (domain separators,
+   transcript name and labels, cSHAKE customisation strings, the common commitment key)
+   are regenerated from the source: gen/SessionConsts.v. *)
 
 (* base.CollisionResistanceBytesCeil = hashcom.KeySize = hashcom.DigestSize *)
 Definition W : nat := 32.
